@@ -18,7 +18,7 @@ pub struct Pt {
     pub exact: bool,
 }
 
-pub fn tai_lattice(thorough: bool) -> Vec<i128> {
+pub fn tai_lattice(thorough: bool, deep: bool) -> Vec<i128> {
     let mut v = vec![];
     let mut zeros: Vec<i128> = vec![0, J2000_TAI - 32_184_000_000, -32_184_000_000];
     for s in [TimeScale::GPST, TimeScale::GST, TimeScale::BDT] {
@@ -55,14 +55,40 @@ pub fn tai_lattice(thorough: bool) -> Vec<i128> {
             v.push(c * NPC - 1);
         }
     }
+    if deep {
+        // thorough tier: both sides of EVERY table entry at finer offsets, every whole and half second within 40 s of
+        // the 2017 leap second, finer offsets round each scale's zero, more century boundaries
+        for (ts, d) in DIGEST {
+            for base in [ts as i128 * NS, (ts + d) as i128 * NS, (ts + d - 1) as i128 * NS] {
+                for o in [-2 * NS, -NS - 1, -NS, -NS + 1, -2, 2, NS - 1, NS, NS + 1, 2 * NS, NS / 2] {
+                    v.push(base + o);
+                }
+            }
+        }
+        let (ts, d) = DIGEST[27];
+        for k in -80i128..=80 {
+            v.push((ts + d) as i128 * NS + k * NS / 2);
+        }
+        for z in &zeros {
+            for o in [2i128, 1_000, 60 * NS, 3_600 * NS, 7 * 86_400 * NS, NPC / 2 + 1, NPC / 2 - 1] {
+                v.push(z + o);
+                v.push(z - o);
+            }
+        }
+        for c in [-6i128, -5, -4, 4, 5, 6, 10, -10, 100, -100] {
+            v.push(c * NPC);
+            v.push(c * NPC + 1);
+            v.push(c * NPC - 1);
+        }
+    }
     v.sort();
     v.dedup();
     v
 }
 
-pub fn points(thorough: bool, leap: &LeapTable) -> Vec<Pt> {
+pub fn points(thorough: bool, deep: bool, leap: &LeapTable) -> Vec<Pt> {
     let mut pts = vec![];
-    for t in tai_lattice(thorough) {
+    for t in tai_lattice(thorough, deep) {
         for ts in SCALES {
             match ts {
                 TimeScale::ET | TimeScale::TDB => {
@@ -241,7 +267,7 @@ pub fn j_convert(a: &Pt, b: &Pt, x: TimeScale, leap: &LeapTable, out: &mut Local
     }
 }
 
-pub fn j_sort(variant: u64, pts: &[Pt], out: &mut Local) {
+pub fn j_sort(variant: u64, deep: bool, pts: &[Pt], out: &mut Local) {
     // exact points only, one per distinct instant and scale rotation, so that the sorted order is unique
     let mut seen = std::collections::BTreeSet::new();
     let mut sel: Vec<Pt> = vec![];
@@ -260,7 +286,7 @@ pub fn j_sort(variant: u64, pts: &[Pt], out: &mut Local) {
     });
     let mut want = sel.clone();
     want.sort_by_key(|p| p.tai);
-    let args = vec![variant.to_string()];
+    let args = vec![variant.to_string(), if deep { "deep" } else { "quick" }.to_string()];
     match r {
         Ok(got) => {
             let ok = got.iter().zip(want.iter()).all(|(g, w)| g.time_scale == w.ts && alpha(g.duration) == w.c);
@@ -278,14 +304,15 @@ pub fn j_sort(variant: u64, pts: &[Pt], out: &mut Local) {
 pub fn run(rep: &mut Report) {
     let q = false; // one parameter set for both tiers (3 s)
     let leap = LeapTable::load().expect("leap").0;
-    let pts = points(!q, &leap);
+    let deep = !rep.quick();
+    let pts = points(!q, deep, &leap);
     let n = pts.len() as u64;
-    rep.bound("tai_instants", tai_lattice(!q).len() as u64);
+    rep.bound("tai_instants", tai_lattice(!q, deep).len() as u64);
     rep.bound("epochs", n);
-    rep.rule = "TAI instants (each scale's zero +- {0, 1 ns, 1 s, 1 day, half a century, one century}, leap seconds +- {0, 1 ns, 1 s} on both sides) each expressed in all nine scales (UTC by inverting the table, ET/TDB through the real conversion); all ordered pairs under == != < <= > >= cmp partial_cmp min max Range::contains and with operands swapped; conversion invariance on a sub-lattice x 7 target scales; sort of mixed-scale vectors. Oracle: the TAI instants. Pairs with an ET/TDB operand within 100 ns are don't-cares. Non-trivial = different scales, symmetric about a zero, near a leap second or <= 1 ns apart.".into();
+    rep.rule = "TAI instants (each scale's zero +- {0, 1 ns, 1 s, 1 day, half a century, one century}, leap seconds +- {0, 1 ns, 1 s} on both sides) (thorough tier: both sides of every table entry at 11 finer offsets, every half second within 40 s of the 2017 leap second, finer offsets round each zero, more century boundaries) each expressed in all nine scales (UTC by inverting the table, ET/TDB through the real conversion); all ordered pairs under == != < <= > >= cmp partial_cmp min max Range::contains and with operands swapped; conversion invariance on a sub-lattice x 7 target scales; sort of mixed-scale vectors. Oracle: the TAI instants. Pairs with an ET/TDB operand within 100 ns are don't-cares. Non-trivial = different scales, symmetric about a zero, near a leap second or <= 1 ns apart.".into();
     rep.assumptions = vec!["the uniform conversions (C05) and the leap table (C06) define which instant an epoch denotes; ET/TDB epochs are produced by the real conversion and judged only beyond 100 ns".into()];
     sweep(rep, "c12.pair", n * n, |i, out| j_pair(&pts[(i / n) as usize], &pts[(i % n) as usize], out));
-    let sub: Vec<Pt> = pts.iter().copied().step_by(if q { 5 } else { 2 }).collect();
+    let sub: Vec<Pt> = pts.iter().copied().step_by(if deep { 3 } else { 2 }).collect();
     let m = sub.len() as u64;
     let xs = [TimeScale::TAI, TimeScale::TT, TimeScale::UTC, TimeScale::GPST, TimeScale::GST, TimeScale::BDT, TimeScale::QZSST];
     rep.bound("convert_space", format!("{m} x {m} epochs x 7 target scales"));
@@ -294,7 +321,7 @@ pub fn run(rep: &mut Report) {
         let j = i / 7;
         j_convert(&sub[(j / m) as usize], &sub[(j % m) as usize], x, &leap, out)
     });
-    sweep(rep, "c12.sort", 3, |i, out| j_sort(i, &pts, out));
+    sweep(rep, "c12.sort", 3, |i, out| j_sort(i, deep, &pts, out));
     // far range, same scale: near both ends of the representable range (where conversions to another scale saturate)
     // two epochs of one scale are still ordered by their counts
     let mut far: Vec<i128> = vec![];
@@ -357,7 +384,10 @@ pub fn replay(check: &str, a: &[String], out: &mut Local) -> bool {
     match check {
         "c12.pair" => j_pair(&mkpt(&a[0], &a[1]), &mkpt(&a[2], &a[3]), out),
         "c12.convert" => j_convert(&mkpt(&a[0], &a[1]), &mkpt(&a[2], &a[3]), scale_from(&a[4]), &leap, out),
-        "c12.sort" => j_sort(pu64(&a[0]), &points(false, &leap), out),
+        "c12.sort" => {
+            let deep = a.get(1).map(|x| x == "deep").unwrap_or(false);
+            j_sort(pu64(&a[0]), deep, &points(true, deep, &leap), out)
+        }
         _ => return false,
     }
     true
